@@ -161,6 +161,52 @@ class ShapeRun:
                     with open(os.path.join(d, fn), "w") as f:
                         f.write("FILE[%s/%s]\n" % (nm, fn))
 
+    def inloop_aggregate(self, k, c, it, node, got_pred):
+        """Aggregate loop references held by instance `it` of a LOOPED component (reader inside the loop): after k
+        further iterations each of them lists ALL instances 0..k of the sibling it names, in increasing iteration
+        order (paths for :loopref, contents for :loopoutput), and the reader waits for the instances 0..it that
+        exist when it is created.  Read from the DataReference objects the instance really carries."""
+        g, t, w = self.g, self.truth, self.w
+        spec = g.graph.nodes[node]["componentSpecification"]
+        held = list(spec.dataReferences)
+        for a in c["agg"]:
+            tn, method, file = a["to"], a["method"], a["file"]
+            tst = t.stage(tn)
+            w.count("clause_inloop_aggregate_resolve")
+            if k >= 10:
+                w.count("clause_inloop_aggregate_resolve_k_ge_10")
+            if it < k:
+                w.count("clause_inloop_aggregate_resolve_older_instance")
+            mine = [dr for dr in held if dr.method == method]
+            if len(mine) != 1:
+                self.viol("inloop_aggregate", k, "instance %s holds %d :%s references (%s), expected one to %s" % (
+                    node, len(mine), method, [dr.absoluteReference for dr in held], G.ref_str(tst, tn, file, method)),
+                          {"node": node, "held": [dr.absoluteReference for dr in held], "method": method})
+                continue
+            dirs = [self.workdir(tst, "%d#%s" % (i, tn)) for i in range(k + 1)]
+            if method == "loopref":
+                exp = " ".join((os.path.join(d, file) if file else d) for d in dirs)
+            else:
+                exp = " ".join(("FILE[%d#%s/%s]" % (i, tn, file)) if file else ("OUT[%d#%s]" % (i, tn)) for i in range(k + 1))
+            try:
+                got = mine[0].resolve(g)
+            except Exception as e:
+                self.viol("inloop_aggregate", k, "instance %s: resolve(%s) raised %s: %s" % (
+                    node, mine[0].absoluteReference, type(e).__name__, str(e)[:300]),
+                          {"node": node, "reference": mine[0].absoluteReference, "error": repr(e)[:600]})
+                continue
+            if got != exp:
+                self.viol("inloop_aggregate", k, "instance %s: %s resolves to %s expected instances 0..%d in order" % (
+                    node, mine[0].absoluteReference, got.replace(self.inst, "$I"), k),
+                          {"node": node, "reference": mine[0].absoluteReference, "got": got.replace(self.inst, "$I"),
+                           "expected": exp.replace(self.inst, "$I")})
+            need = set(t.instance_id(tn, i) for i in range(it + 1))
+            w.count("clause_inloop_aggregate_edge")
+            if not need <= set(got_pred):
+                self.viol("inloop_aggregate_edge", k, "instance %s aggregates %s but has no edge from %s" % (
+                    node, tn, sorted(need - set(got_pred))),
+                          {"node": node, "predecessors": got_pred, "needed": sorted(need)})
+
     # -- observation + oracle after iteration k
     def observe(self, k):
         import experiment.model.graph as MG
@@ -204,10 +250,17 @@ class ShapeRun:
                     if got_refs != exp_refs:
                         self.viol("references", k, "instance %s has references %s expected %s" % (
                             node, got_refs, exp_refs), {"node": node, "got": got_refs, "expected": exp_refs})
-                    exp_pred = sorted(set("stage%d.%s" % (p[0], p[1]) for p in exp_in))
+                    exp_pred = sorted(set("stage%d.%s" % (p[0], p[1]) for p in t.instance_inputs(nm, it, sfx, with_agg=False)))
                     got_pred = sorted(g.graph.predecessors(node))
                     w.count("clause_edges")
-                    if got_pred != exp_pred:
+                    if c.get("agg"):
+                        # reader of in-loop aggregate references: its ordinary inputs are judged as a lower bound here,
+                        # the aggregates by inloop_aggregate() below (the statement does not fix the exact edge set)
+                        if not set(exp_pred) <= set(got_pred):
+                            self.viol("edges", k, "instance %s has producers %s, expected at least %s" % (
+                                node, got_pred, exp_pred), {"node": node, "got": got_pred, "expected_subset": exp_pred})
+                        self.inloop_aggregate(k, c, it, node, got_pred)
+                    elif got_pred != exp_pred:
                         self.viol("edges", k, "instance %s has producers %s expected %s" % (
                             node, got_pred, exp_pred), {"node": node, "got": got_pred, "expected": exp_pred})
                     # arguments: every by-construction reference token, rewritten, appears once (aggregators
@@ -457,6 +510,7 @@ def class_key(shape):
         "v" if shape.get("repl_via_var") else "", ("+carried" if shape.get("repl_carried") else "") +
         ("+combo" if shape.get("combo") else "") + ("+twin" if shape.get("twin") else "") +
         ("+dup" if any(c.get("dup") is not None for c in body) else "") +
+        "".join("+inagg:" + ",".join(a["method"] for a in c["agg"]) for c in body if c.get("agg")) +
         ("+rel" if any(x.get("spelling") == "rel" for c in body for x in c["intra"]) else ""),
         sum(1 for b in shape["bindings"].values() if b["loop"]),
         sum(1 for b in shape["bindings"].values() if not b["loop"]),
@@ -538,7 +592,10 @@ def main():
                        "loop-carried producers sit in a body stage <= their consumer's; a replicated producer is only carried "
                        "into the replicated head of the same chain; replication inside the loop is the "
                        "replicate -> [follower] -> aggregate chain only",
-                       ":loopref/:loopoutput are only used by consumers outside the loop; at most two DoWhile documents per "
+                       ":loopref/:loopoutput are used by consumers outside the loop and, inside the loop, by one extra looped "
+                       "component that nobody reads (a sink, so 'all instances' cannot close a cycle) and that aggregates "
+                       "non-replicated siblings; for such a reader only a lower bound of its graph predecessors is judged "
+                       "(its ordinary inputs and the instances 0..i of the aggregated sibling); at most two DoWhile documents per "
                        "package (the second is a fixed two-component loop with a namesake condition component)",
                        "outputs of instances are materialised by the harness at stages/stage<N>/<instance>/ "
                        "(out.stdout, res.txt) as the engine would have produced them",
@@ -577,6 +634,7 @@ def main():
     c.floor("clause_carried_inputs_it_ge_10", 25 if tier == "quick" else 300)
     c.floor("clause_aggregate_order_k_ge_10", 10 if tier == "quick" else 100)
     c.floor("clause_outside_resolve_k_ge_10", 10 if tier == "quick" else 100)
+    c.floor("clause_inloop_aggregate_resolve_k_ge_10", 100 if tier == "quick" else 2000)
     sys.exit(c.finish())
 
 
